@@ -803,8 +803,9 @@ class Gen:
             return None
         rt = t
         if t in NUM and self.rng.chance(0.3):
-            # numeric kinds convert on assignment; (int <- double) is the pinned C11/C01 defect: avoided
-            rt = self.rng.choice([x for x in NUM if not (t == 'int' and x == 'double')])
+            # numeric kinds convert on assignment (the cell (int <- double) mis-tagged by the pinned tree
+            # was repaired in 8e26181)
+            rt = self.rng.choice(NUM)
         r = self.expr(rt, d - 1)
         return N('ass', l, r, ty=t, cst=r.cst)
 
